@@ -19,7 +19,7 @@ FUNCTIONS = [
     "cnvlib.coverage.interval_coverages_count (pool branch, with an in-process stand-in pool)/_rdc, cnvlib.samutil.ensure_bam_index/is_newer_than (stand-in file system with symbolic modification times)",
 ]
 BOUNDS = {
-    "reads": "<= 2 reads of <= 3 aligned positions each, symbolic start, every flag (duplicate, secondary, unmapped, QC-fail) a symbolic boolean, symbolic MAPQ and min_mapq",
+    "reads": "<= 2 reads of <= 3 aligned positions each, symbolic start, 0-2 soft-clipped bases at either end (query length > aligned length), a hole of 0-2 reference bases before the last aligned base, every flag (duplicate, secondary, unmapped, QC-fail) a symbolic boolean, symbolic MAPQ and min_mapq",
     "bins": "one bin with symbolic start/end (zero-width and reversed reachable) for the depth clause; 2-3 bins over 2 chromosomes for the row/order clause",
     "bedcov": "3-, 4- and 6-column bedcov output with symbolic coordinates and base counts (unique decimal tokens through the real read_csv)",
     "chunks": "<= 5 BED lines incl. '#' comment lines, symbolic chunk size 1..6",
@@ -44,7 +44,13 @@ M = 3 * 10**8  # a bin may be as long as a chromosome (depth below 2**-20 is rea
 class Read:
     def __init__(self, ctx, k, length):
         self.start = ctx.int(f"r{k}s", 0, M)
-        self.positions = [self.start + j for j in range(length)]
+        # aligned reference positions as pysam reports them: soft-clipped bases (0-2 at either end)
+        # are part of the query but not aligned; a deletion / skipped stretch of 0-2 reference bases
+        # before the last aligned base leaves a hole in the positions
+        self.gap = ctx.int(f"r{k}gap", 0, 2) if length > 1 else 0
+        self.clip_left = ctx.int(f"r{k}cl", 0, 2)
+        self.clip_right = ctx.int(f"r{k}cr", 0, 2)
+        self.positions = [self.start + j + (self.gap if (length > 1 and j == length - 1) else 0) for j in range(length)]
         self.is_duplicate = ctx.bool(f"r{k}dup")
         self.is_secondary = ctx.bool(f"r{k}sec")
         self.is_unmapped = ctx.bool(f"r{k}unm")
@@ -60,8 +66,12 @@ class Read:
         self.is_read2 = False
         self.mate_is_unmapped = False
         self.reference_start = self.start
-        self.reference_end = self.start + length
-        self.query_length = length
+        self.reference_end = self.positions[-1] + 1
+        self.reference_length = self.reference_end - self.start
+        self.query_length = length + self.clip_left + self.clip_right
+        self.query_alignment_length = length
+        self.query_alignment_start = self.clip_left
+        self.query_alignment_end = self.clip_left + length
 
     @property
     def mapping_quality(self):
